@@ -609,6 +609,20 @@ def filter_frame(it, f, mask, node, how="filter"):
 
 
 def getitem(it, base, idx, node, fr):
+    if isinstance(base, Unk) and getattr(base, "is_matrix", False) and getattr(base, "rot", None) is not None \
+            and isinstance(idx, Seq) and len(idx.items) == 3 and isinstance(idx.items[0], SliceV) and idx.items[0].is_full():
+        # rotation matrices of a batch: M[:, :, j] is the image of the j-th unit vector (column j), M[:, i, :] is row i = column i of
+        # the inverse rotation
+        a_, b_ = idx.items[1], idx.items[2]
+        e = lambda k: T("vec", *[const(1.0 if i_ == k else 0.0) for i_ in range(3)])
+        R = base.rot.term
+        v_ = None
+        if isinstance(a_, SliceV) and a_.is_full() and is_pyconst(b_) and isinstance(pyval(b_), int):
+            v_ = T("rotapply", R, e(pyval(b_) % 3))
+        elif isinstance(b_, SliceV) and b_.is_full() and is_pyconst(a_) and isinstance(pyval(a_), int):
+            v_ = T("rotapply", T("transpose", R), e(pyval(a_) % 3))
+        if v_ is not None:
+            return Arr([T("item", v_, 0), T("item", v_, 1), T("item", v_, 2)], 2, base.space)
     if isinstance(base, imgdom.CompStack):
         r_ = imgdom.stack_getitem(base, idx)
         if r_ is None:
